@@ -83,3 +83,82 @@ Theorem waitForNew_no_lost_cancel prog hl ok s t c :
   M.ctx_guard queue hl ok -> M.reach queue prog q0 hl ok s -> M.quiescent s ->
   prog t = M.OWaiter (w_iter c) -> M.thr s t = M.Parked -> M.ended s t = false.
 Proof. intros G R Q Hp Hs. eapply M.mon_no_lost_cancel; eauto. Qed.
+
+(* ================================================================ Deque: element.wait in the same monitor model *)
+From FunV Require Import Model.DequeCursor.
+
+Definition NFRONT : M.cond := 2.
+Definition NBACK : M.cond := 3.
+Definition UPDATES : M.cond := 4.
+Definition bcast_all : list M.sig := [M.Broadcast NFRONT; M.Broadcast NBACK; M.Broadcast UPDATES].   (* dq.broadcastAll() *)
+
+Definition no_iters (d : deque) : dstate := mkDS d (fun _ => di0 VFwd).
+
+Definition bd_push (v : Z) (back : bool) : M.body deque := fun d =>
+  match push (no_iters d) v back with
+  | (s', EvAdd true) => (sd s', bcast_all)
+  | _ => (d, [])
+  end.
+
+Definition bd_pop (back : bool) : M.body deque := fun d =>
+  match pop (no_iters d) back with
+  | (s', EvRem (Some _)) => (sd s', bcast_all)
+  | _ => (d, [])
+  end.
+
+Definition bd_close : M.body deque := fun d => (mkD (dheap d) (dnxt d) true (dlen d), bcast_all).
+
+(* element.wait of the element c in direction rv, with `next` captured as cap before the loop, on the cond k
+   it chose at entry: parks while the pointer is unchanged; the watcher goroutine is spawned before the loop *)
+Definition w_dwait (k : M.cond) (c : nat) (rv : bool) (cap : option nat) : M.waiter deque :=
+  M.mkWaiter k (fun d => negb (optnat_eqb cap (get rv (dheap d c)))) dclosed (fun d => (d, [])) true.
+
+Inductive dwait_op : M.op deque -> Prop :=
+| do_push v b : dwait_op (M.OEffect (bd_push v b))
+| do_pop b : dwait_op (M.OEffect (bd_pop b))
+| do_close : dwait_op (M.OEffect bd_close)
+| do_wait k c rv cap : dwait_op (M.OWaiter (w_dwait k c rv cap)).
+
+Definition dwait_prog (prog : M.tid -> M.op deque) : Prop := forall t, dwait_op (prog t).
+
+Lemma dbody_unchanged_or_bcast prog t b d :
+  dwait_prog prog -> M.body_of deque prog t b -> fst (b d) = d \/ snd (b d) = bcast_all.
+Proof.
+  intros HP [Hb|(w & Hw & ->)]; pose proof (HP t) as Ht.
+  - rewrite Hb in Ht. inversion Ht; subst.
+    + unfold bd_push. destruct (push (no_iters d) v b0) as [s' e]. destruct e as [|[|]|o|i r|]; simpl; auto.
+    + unfold bd_pop. destruct (pop (no_iters d) b0) as [s' e]. destruct e as [|ok|[z|]|i r|]; simpl; auto.
+    + right. reflexivity.
+  - rewrite Hw in Ht. inversion Ht; subst. left. reflexivity.
+Qed.
+
+Theorem deque_wait_bcast prog k :
+  dwait_prog prog -> k = NFRONT \/ k = NBACK \/ k = UPDATES -> M.bcast_discipline deque prog k.
+Proof.
+  intros HP Hk t b Hb d u w Hu Hc H0 H1.
+  destruct (dbody_unchanged_or_bcast prog t b d HP Hb) as [E|E].
+  - rewrite E in H1. congruence.
+  - rewrite E. unfold bcast_all. simpl. destruct Hk as [ -> | [ -> | -> ] ]; auto.
+Qed.
+
+(* every reachable state of every schedule: a producer parked (or about to park) in element.wait still sees
+   the pointer it captured, and the deque is open *)
+Theorem deque_wait_parked_unchanged prog hl ok s t k c rv cap :
+  dwait_prog prog -> k = NFRONT \/ k = NBACK \/ k = UPDATES ->
+  M.reach deque prog d0 hl ok s -> prog t = M.OWaiter (w_dwait k c rv cap) ->
+  (M.thr s t = M.Parking \/ M.thr s t = M.Parked) ->
+  get rv (dheap (M.dat s) c) = cap /\ dclosed (M.dat s) = false.
+Proof.
+  intros HP Hk R Hp Hs.
+  pose proof (M.mon_parked_not_enabled deque prog d0 hl ok k s (deque_wait_bcast prog k HP Hk) R t _ Hp eq_refl Hs) as X.
+  unfold M.w_wake in X. simpl in X. apply orb_false_iff in X. destruct X as (X & Y). split; [|exact Y].
+  apply negb_false_iff in X. destruct cap as [a|], (get rv (dheap (M.dat s) c)) as [b|]; simpl in X; try discriminate; auto.
+  apply Nat.eqb_eq in X. congruence.
+Qed.
+
+(* at quiescence no parked producer's context has ended - provided the watcher broadcasts under the deque's
+   mutex (hl = true), or the schedule avoids the race between the ctx.Done() check and cond.Wait *)
+Theorem deque_wait_no_lost_cancel prog hl ok s t k c rv cap :
+  M.ctx_guard deque hl ok -> M.reach deque prog d0 hl ok s -> M.quiescent s ->
+  prog t = M.OWaiter (w_dwait k c rv cap) -> M.thr s t = M.Parked -> M.ended s t = false.
+Proof. intros G R Q Hp Hs. eapply M.mon_no_lost_cancel; eauto. Qed.
